@@ -60,6 +60,10 @@ type Machine struct {
 	initDirect *ssa.Function
 	fpMemo     map[fpKey]*Term
 	fpOrigin   map[*Term]*Term // float64 var -> the float32 term it widens
+	preemptAt   int  // -1: off; k: preempt before the k-th call instruction of spawned goroutines
+	preemptSeen int
+	preemptHit  bool
+	fmtOpaque  bool              // fmt verbs render symbolic scalar/string operands as "?" (vsymFmtOpaque)
 	poolReuse  bool              // sync.Pool.Get returns the most recently Put object (LIFO) instead of always missing
 	pools      map[*value][]value
 }
@@ -260,6 +264,17 @@ func (m *Machine) visitInstr(fr *frame, instr ssa.Instruction) continuation {
 
 	case *ssa.Call:
 		fn, args := m.prepareCall(fr, &instr.Call)
+		if m.preemptAt >= 0 && m.sched != nil && m.sched.cur != nil && m.sched.cur.id != 0 {
+			// one scheduled preemption (vsymPreemptAt): before the k-th call instruction executed by
+			// spawned goroutines, every other goroutine runs until it blocks or finishes
+			if m.preemptSeen == m.preemptAt {
+				m.preemptSeen++
+				m.preemptHit = true
+				m.yield()
+			} else {
+				m.preemptSeen++
+			}
+		}
 		fr.env[instr] = m.call(fr, instr.Pos(), fn, args)
 
 	case *ssa.ChangeInterface:
